@@ -176,3 +176,9 @@ def r5(rr, repo):
             rr.ob('constructing a balanced receiver with an ephemeral source raises', p.outcome is not None and p.outcome[0] == 'raise', za.mod, za.R_init, witness=f'{p.pc_text()} => {p.outcome_text()}', key='bal-eph-raise')
     if not n:
         rr.violated('the constructor does not look at (balance and sender.ephemeral) at all', za.mod, za.R_init, key='bal-eph-untested')
+
+
+@rule('C05.R6', "only ephemeral sources are announced as ephemeral: the request marks ('eph', 'new') are computed per source (shares C04.R7)")
+def r6(rr, repo):
+    from .c04 import request_mark_obligations
+    request_mark_obligations(rr, repo)
